@@ -85,6 +85,10 @@ EXPLANATION += (
     ' Round 14: the HDF5 writer stores each confidence field as the record holds it (codec rule of C15).'
 )
 
+EXPLANATION += (
+    ' Round 15: the CPM conversion divides by the row total with zero totals replaced (R-ARITH/cpm, rule of C07).'
+)
+
 RULE_TEXT = (
     "one obligation per arithmetic relation (quotient, divisor, slice "
     "bound, constant, loop shape); non-trivial when the construct exists")
@@ -125,6 +129,7 @@ def check(ctx):
     check_runners_up_as_requested(ctx)
     check_correlation_inheritance_order(ctx)
     check_candidates_forwarded_unchanged(ctx)
+    check_election_results_as_chosen(ctx)
     # the confidence fields reach the HDF5 output as computed: the writer
     # stores each record key as it finds it (codec rule of C15)
     from .C15 import check_record_keys, check_hdf5_codec
@@ -890,3 +895,43 @@ def check_candidates_forwarded_unchanged(
                'columns at this parent')
     if n < 4:
         raise AnalysisError(f'only {n} hand-overs of n_assignments found')
+
+
+def check_election_results_as_chosen(ctx,
+                                     rule='R-SAMEVAL/results-as-chosen'):
+    """choose_node orders the runners-up by vote share and keeps
+    probabilities, correlations and candidates aligned.  The frame that
+    calls it hands its four results on as they come: every element of what
+    `_run_type_assignment` returns is the corresponding element of the
+    choose_node call.  A re-sort on the way (by rounded share, by
+    correlation) breaks the non-increasing order of the shares that
+    choose_node established, and nothing downstream orders them again."""
+    fi = ctx.db.fn('type_assignment.election:_run_type_assignment')
+    cfg = cfg_of(fi)
+    rd = rd_of(fi)
+    ex = Expander(fi)
+    n = 0
+    for node in cfg.nodes:
+        if node.kind != 'return' or node.id not in rd.live \
+                or node.ast.value is None:
+            continue
+        t = ex.expand(node.ast.value, node.id)
+        elems = t[1] if isinstance(t, tuple) and t and t[0] == 'tuple' \
+            else [t]
+        for i, e in enumerate(elems):
+            n += 1
+            ok = all(
+                isinstance(a, tuple) and a and a[0] == 'sub'
+                and isinstance(a[1], tuple) and a[1][0] == 'call'
+                and T.call_name(a[1]) == 'choose_node'
+                and a[2] == ('const', str(i))
+                for a in term_alts(e))
+            ctx.touch(fi)
+            ctx.ob(rule, f'{fi.qual}:return[{i}]', fi.loc(node.ast), ok,
+                   f'element {i} is element {i} of choose_node' if ok else
+                   f'element {i} of what _run_type_assignment returns is '
+                   f'{fmt_term(e)[:70]}, not element {i} of the '
+                   'choose_node call: what choose_node put in order is '
+                   're-arranged before it is recorded')
+    ctx.floor(rule, 4)
+    return n
